@@ -17,3 +17,23 @@ pub mod objective;
 pub mod one_node_per_tour;
 pub mod transition_cycle_tsp;
 pub mod transition_local_search;
+
+/// Recorder used by the verification harness only (built with `--cfg rssched_verif`).
+#[cfg(rssched_verif)]
+pub mod verif_hooks {
+    use solution::Schedule;
+    use std::sync::Mutex;
+
+    pub static RECORDS: Mutex<Vec<(String, Schedule)>> = Mutex::new(Vec::new());
+
+    pub fn record(label: &str, schedule: &Schedule) {
+        RECORDS
+            .lock()
+            .unwrap()
+            .push((label.to_string(), schedule.clone()));
+    }
+
+    pub fn take() -> Vec<(String, Schedule)> {
+        std::mem::take(&mut *RECORDS.lock().unwrap())
+    }
+}
